@@ -2,6 +2,7 @@
 #![allow(clippy::type_complexity)]
 use crate::node::{Elem, Node};
 use crate::run::{run_case, RunFn};
+use crate::swap::run_swap_case;
 use crate::sexp::Shape;
 use crate::{node_enum, node_struct};
 use star_frame::prelude::*;
@@ -153,12 +154,13 @@ pub struct TypeEntry {
     pub shape: Shape,
     pub shape_s: String,
     pub run: RunFn,
+    pub run_swap: RunFn,
 }
 
 fn entry<T: Node + ?Sized>(id: &'static str, rust: &'static str) -> TypeEntry {
     let shape = T::shape();
     let shape_s = shape.print();
-    TypeEntry { id, rust, shape, shape_s, run: run_case::<T> }
+    TypeEntry { id, rust, shape, shape_s, run: run_case::<T>, run_swap: run_swap_case::<T> }
 }
 
 macro_rules! reg {
